@@ -654,7 +654,7 @@ func runC17P12(c *Ctx, rk *rsa.PrivateKey, rcert *gx509.Certificate) {
 		var cas []*stdCert
 		_ = cas
 		var pfx []byte
-		if pi := mon.Guard(func() { pfx, err = pkcs12.Encode(k, cert, nil, pw.p) }); pi != nil || err != nil {
+		if pi := mon.Guard(func() { pfx, err = pkcs12.Encode(k, cert, nil, pw.p); keep("pkcs12.Encode", pfx) }); pi != nil || err != nil {
 			rep.Violation("C17/pkcs12.Encode/fails/pw="+pw.cls, fmt.Sprint(pi, err), w)
 			rep.Eval(cls)
 			return
